@@ -93,7 +93,17 @@ FinalViol(h) ==
                           /\ x[2] \in DOMAIN h.final.digest[x[1]]
                           /\ Bound(x[1], x[2], h.events, n)
                           /\ h.final.digest[x[1]][x[2]] # CanonRec.digest[x[2]]}}
-Viol(h) == UNION {StepViol(h, i) : i \in 1..Len(h.events)} \cup FinalViol(h)
+\* mutable per-atom objects (dict, list, array, record) reachable from two different tables
+HeapViol(h) ==
+  IF "heap" \notin DOMAIN h.final THEN {}
+  ELSE LET tabs == DOMAIN h.final.heap
+       IN {[step |-> Len(h.events) + 1, clause |-> "NoSharedMutable", got |-> x[1] \o "/" \o x[2] \o ":" \o x[3], want |-> "-"] :
+             x \in {y \in tabs \X tabs \X {"crystal_structure", "magnetic_ff", "magnetic_ff.item", "neutron",
+                                              "neutron_activation", "neutron_activation.item", "neutron.nsf_table", "_xray"} :
+                      /\ y[1] # y[2]
+                      /\ y[3] \in DOMAIN h.final.heap[y[1]] /\ y[3] \in DOMAIN h.final.heap[y[2]]
+                      /\ ToSet(h.final.heap[y[1]][y[3]]) \cap ToSet(h.final.heap[y[2]][y[3]]) # {}}}
+Viol(h) == HeapViol(h) \cup UNION {StepViol(h, i) : i \in 1..Len(h.events)} \cup FinalViol(h)
 
 TInit == l = 2 /\ st = St0
 TNext == /\ l <= Len(Log)
